@@ -187,8 +187,9 @@ pub mod checks {
         let mut rng = Rng(seed.wrapping_mul(0x2545F4914F6CDD1D) | 1);
         let fs: Vec<Filter> = match subset {
             // function atoms only (count / length / value / match / search), plain and negated
-            "e2e_fn" => { let a = atoms(); let mut v: Vec<Filter> = a[24..].to_vec();
-                          v.extend(a[24..].iter().map(|f| Filter::Atom(FilterAtom::Filter { expr: Box::new(f.clone()), not: true }))); v }
+            "e2e_fn" => { let a = atoms(); let fa: Vec<Filter> = a.iter().filter(|f| format!("{:?}", f).contains("Function(")).cloned().collect();
+                          let mut v = fa.clone();
+                          v.extend(fa.iter().map(|f| Filter::Atom(FilterAtom::Filter { expr: Box::new(f.clone()), not: true }))); v }
             _ => filters(&mut rng, if tier == "thorough" { 400 } else { 120 }),
         };
         let w = Segment::Selector(Selector::Wildcard);
@@ -207,15 +208,23 @@ pub mod checks {
         let ds = docs(if tier == "thorough" { 400 } else { 60 }, seed);
         let qs = if name == "e2e" { queries(tier, seed) } else { queries_subset(name, tier, seed) };
         // quick: every query on a rotating sample of documents; thorough: every pair
-        let stride = if tier == "thorough" { 1 } else { 13 };
+        let stride = if tier == "thorough" { 1 } else { 29 };
         for (qi, q) in qs.iter().enumerate() {
             for (di, d) in ds.iter().enumerate() {
                 if let Some((a, b)) = only { if (qi, di) != (a, b) { continue; } }
                 else if (qi + di) % stride != 0 && di >= always() { continue; }
                 let r1 = e2e_one(q, d, d, &mut rep, "serde_json::Value", (qi, di));
                 // C15: the same query over a second Queryable implementation of the same document
+                // quick: the second implementation on every other (query, document) pair
+                if tier != "thorough" && only.is_none() && (qi + di) % 2 == 1 { continue; }
                 let j = from_value(d);
                 let r2 = e2e_one(q, &j, d, &mut rep, "kjson::J", (qi, di));
+                if di < always() {
+                    // the same document seen through a view whose objects list their members in another order:
+                    // the result must follow THAT order (the mirror is generic in the data type)
+                    let jr = reverse_members(&j);
+                    if jr != j && (qi + di) % 3 == 0 { let _ = e2e_one(q, &jr, d, &mut rep, "kjson::J(reversed member order)", (qi, di)); }
+                }
                 if let (Some(a), Some(b)) = (r1, r2) {
                     let pa: Vec<&String> = a.iter().map(|x| &x.1).collect();
                     let pb: Vec<&String> = b.iter().map(|x| &x.1).collect();
@@ -240,6 +249,12 @@ pub mod checks {
             opts.extend((-3..=3).map(Some));
             for a in &opts { for b in &opts { for c in &opts { out.push(JpQuery::new(vec![Segment::Selector(Selector::Slice(*a, *b, *c))])); } } }
             for i in -7..=7 { out.push(JpQuery::new(vec![Segment::Selector(Selector::Index(i))])); }
+            for i in -4..=4 {
+                for v in [1i64, 3] {
+                    let c = Comparison::Eq(Comparable::SingularQuery(SingularQuery::Current(vec![SingularQuerySegment::Index(i)])), Comparable::Literal(Literal::Int(v)));
+                    out.push(JpQuery::new(vec![Segment::Selector(Selector::Filter(Filter::Atom(FilterAtom::Comparison(Box::new(c)))))]));
+                }
+            }
             for i in [9007199254740991i64, -9007199254740991] {
                 out.push(JpQuery::new(vec![Segment::Selector(Selector::Index(i))]));
                 out.push(JpQuery::new(vec![Segment::Selector(Selector::Slice(Some(i), Some(-i), Some(1)))]));
@@ -270,7 +285,8 @@ pub mod checks {
     }
     pub fn group_text(name: &str, tier: &str, seed: u64, only: Option<(usize, usize)>) -> Report {
         let mut rep = Report::new(name);
-        let ds: Vec<Value> = if name == "text_arith" { (0..=5).map(|n| Value::Array((0..n).map(|i| json!(i)).collect())).collect() }
+        let ds: Vec<Value> = if name == "text_arith" { let mut v: Vec<Value> = (0..=5).map(|n| Value::Array((0..n).map(|i| json!(i)).collect())).collect();
+                                                        v.push(json!([[1, 2, 3], [3, 2, 1], [1], [], [3, 1]])); v }
                              else { docs(if tier == "thorough" { 200 } else { 30 }, seed) };
         let qs = text_queries(name, tier, seed);
         let stride = if tier == "thorough" || name == "text_arith" { 1 } else { 5 };
@@ -299,6 +315,16 @@ pub mod checks {
                         let det = json!({"observed": got.iter().map(|x| &x.1).collect::<Vec<_>>(), "expected": want.iter().map(|x| &x.1).collect::<Vec<_>>()});
                         if gi != wi { rep.fail(&format!("{}.members", name), &feats, w(det)); }
                         else if !same { rep.fail(&format!("{}.order", name), &feats, w(det)); }
+                        // the public trait methods (src/lib.rs) are position-wise projections of the same evaluation
+                        use crate::JsonPath;
+                        let api_ok = match (catch_unwind(AssertUnwindSafe(|| d.query(&text))), catch_unwind(AssertUnwindSafe(|| d.query_only_path(&text))), catch_unwind(AssertUnwindSafe(|| d.query_with_path(&text)))) {
+                            (Ok(Ok(vals)), Ok(Ok(paths)), Ok(Ok(both))) =>
+                                vals.iter().map(|x| *x as *const Value as usize).collect::<Vec<_>>() == got.iter().map(|x| x.0).collect::<Vec<_>>()
+                                && paths == got.iter().map(|x| x.1.clone()).collect::<Vec<_>>()
+                                && both.iter().map(|r| (r.clone().val() as *const Value as usize, r.clone().path())).collect::<Vec<_>>() == got,
+                            _ => false,
+                        };
+                        if !api_ok { rep.fail(&format!("{}.api_agree", name), &feats, w(json!("query / query_only_path / query_with_path disagree with js_path"))); }
                         if rep.samples.len() < 4 && !want.is_empty() && rep.evaluations % 211 == 1 { rep.samples.push(json!({"text": text, "doc": d, "result": want.iter().map(|x| &x.1).collect::<Vec<_>>()})); }
                     }
                 }
@@ -307,7 +333,8 @@ pub mod checks {
         if name == "text_arith" {
             let d = json!([0, 1, 2]);
             for t in ["$[-9223372036854775808]", "$[9223372036854775807]", "$[-9223372036854775808:]", "$[:-9223372036854775808]", "$[::-9223372036854775808]",
-                      "$[?@[-9223372036854775808] == 1]", "$[9007199254740992]", "$[-9007199254740992]", "$[99999999999999999999]", "$[?@ == 9223372036854775807]", "$[?@ == -9223372036854775808]"] {
+                      "$[?@[-9223372036854775808] == 1]", "$[9007199254740992]", "$[-9007199254740992]", "$[99999999999999999999]", "$[?@ == 9223372036854775807]", "$[?@ == -9223372036854775808]",
+                      "$[?@ in $]", "$[?@ size 2]", "$[?1 anyOf $.b]", "$[?@ nin $]", "$[?@ noneOf $]", "$[?@ subsetOf $]", "$[?@ ~= 'a']", "$[?@ === 1]", "$[?@ <> 1]"] {
                 rep.evaluations += 1;
                 if catch_unwind(AssertUnwindSafe(|| js_path(t, &d).is_ok())).is_err() {
                     rep.fail("text_arith.no_panic", &[], json!({"text": t, "doc": d, "detail": "panic"}));
